@@ -58,4 +58,84 @@ def requestErrorName (rustVariant : String) : String :=
   else if rustVariant = "Internal" then "InternalError"
   else rustVariant
 
+/-! ### Caller-owned objects: every call sees the values of its arguments, nothing else -/
+
+/-- a point memory as a function (absent = `none`) -/
+abbrev Mem := Nat → Option Nat
+
+def Mem.set (m : Mem) (a v : Nat) : Mem := fun a' => if a' = a then some v else m a'
+
+/-- a multiple write applied point by point in ascending order; it stops at the first absent
+    point.  Returns whether every point existed and the memory afterwards. -/
+def Mem.writeAll (m : Mem) (start : Nat) : List Nat → Bool × Mem
+  | [] => (true, m)
+  | v :: vs =>
+    match m start with
+    | some _ => Mem.writeAll (m.set start v) (start + 1) vs
+    | none => (false, m)
+
+/-- a read of `n` points from `start`: all the values, or `none` if one is absent -/
+def Mem.readAll (m : Mem) (start n : Nat) : Option (List Nat) :=
+  (List.range n).mapM fun k => m (start + k)
+
+/-- `k` writes of the SAME values to the given start addresses: for each write whether the
+    request was acceptable (non-empty, no address overflow) and whether it succeeded; and the
+    memory afterwards.  Every write carries the full list of values, whatever came before. -/
+def Mem.writeSame (m : Mem) (vs : List Nat) : List Nat → List (Bool × Bool) × Mem
+  | [] => ([], m)
+  | s :: rest =>
+    if vs.length = 0 ∨ s + vs.length > 65536 then
+      let r := Mem.writeSame m vs rest
+      ((false, false) :: r.1, r.2)
+    else
+      let w := m.writeAll s vs
+      let r := Mem.writeSame w.2 vs rest
+      ((true, w.1) :: r.1, r.2)
+
+/-! ### Control functions and constructors: outcome tables -/
+
+/-- (function, circumstance) ↦ `ParamError` -/
+def controlReturns : List ((String × String) × String) :=
+  [(("client_channel_set_decode_level", "live"), "Ok"),
+   (("client_channel_set_decode_level", "null"), "NullParameter"),
+   (("client_channel_set_decode_level", "closed"), "Shutdown"),
+   (("client_channel_enable", "live"), "Ok"),
+   (("client_channel_enable", "null"), "NullParameter"),
+   (("client_channel_disable", "live"), "Ok"),
+   (("client_channel_disable", "null"), "NullParameter"),
+   (("server_set_decode_level", "live"), "Ok"),
+   (("server_set_decode_level", "null"), "NullParameter"),
+   (("server_set_decode_level", "withinAsync"), "RuntimeCannotBlockWithinAsync"),
+   (("server_update_database", "live"), "Ok"),
+   (("server_update_database", "null"), "NullParameter"),
+   (("server_update_database", "nounit"), "InvalidUnitId")]
+
+def controlReturn (fn circumstance : String) : String :=
+  (controlReturns.lookup (fn, circumstance)).getD "?"
+
+/-- TLS configuration scenarios of the client constructor: scenario ↦ (what the Rust-API
+    constructor reports for the same inputs, `ParamError` of the C ABI).  The certificate
+    loader of the library reports every unusable file as `BadConfig`. -/
+def tlsClientScenarios : List (String × String × String) :=
+  [("ok", "ok", "Ok"), ("ca", "ok", "Ok"), ("wilddns", "ok", "Ok"),
+   ("nopeer", "BadConfig", "BadTlsConfig"), ("nolocal", "BadConfig", "BadTlsConfig"),
+   ("nokey", "BadConfig", "BadTlsConfig"), ("keyiscert", "BadConfig", "BadTlsConfig"),
+   ("peeriskey", "BadConfig", "BadTlsConfig"), ("canopeer", "BadConfig", "BadTlsConfig"),
+   ("baddns", "InvalidDnsName", "InvalidDnsName"), ("stardns", "InvalidDnsName", "InvalidDnsName"),
+   ("utf8peer", "Utf8Error", "InvalidUtf8"), ("utf8dns", "Utf8Error", "InvalidUtf8")]
+
+/-- the same for the two TLS server constructors (a server has no expected name; paths are
+    converted lossily, so a path that is not UTF-8 is just a file that does not exist) -/
+def tlsServerScenarios : List (String × String × String) :=
+  [("ok", "ok", "Ok"), ("ca", "ok", "Ok"),
+   ("nopeer", "BadConfig", "BadTlsConfig"), ("nolocal", "BadConfig", "BadTlsConfig"),
+   ("nokey", "BadConfig", "BadTlsConfig"), ("keyiscert", "BadConfig", "BadTlsConfig"),
+   ("peeriskey", "BadConfig", "BadTlsConfig"), ("canopeer", "BadConfig", "BadTlsConfig"),
+   ("utf8peer", "BadConfig", "BadTlsConfig")]
+
+/-- arguments that are wrong before any configuration is looked at -/
+def structuralScenarios : List (String × String) :=
+  [("nullrt", "NullParameter"), ("nullfilter", "NullParameter"), ("nullmap", "NullParameter"),
+   ("badip", "InvalidIpAddress"), ("inuse", "ServerBindError"), ("ok", "Ok")]
+
 end Rodbus.Ffi.Spec
